@@ -23,13 +23,19 @@ def C03Signer.signer (K : C03Signer) : Signer where
 /-- the compressed public keys of the secrets (what make_wallet lists; C14) -/
 def C03Signer.pubs (K : C03Signer) : List Bytes := K.secs.map fun d => Secp.ser33 (Secp.mul d Secp.G)
 
-/-- the three signing calls sign_tx can make for this input with key `j` all succeed (R ≠ 0) -/
+/-- the ONE signing call sign_tx makes for this input with key `j` succeeds (R ≠ 0) — which call depends on the type of
+    the spent script, told apart by its length: 25 bytes = P2PKH ⇒ `Tx.Sign` over the legacy digest; 22 = P2WPKH or
+    23 = P2SH-P2WPKH ⇒ `Tx.SignWitness` over the BIP143 digest; 34 = P2TR ⇒ `SchnorrSign` over the BIP341 key-path digest.
+    Nothing is asked about the two calls the input type does not make. -/
 def CallsOk (C : Crypto) (K : C03Signer) (sk : Skeleton) (spent : List TxOut) (i : Nat) (uo : TxOut) (j : Nat) (h160 : Bytes) : Prop :=
-  SignOk (K.secs.getD j 0) (C.legacyDigest sk i uo.script 1) (K.nonce j (C.legacyDigest sk i uo.script 1)) ∧
-  SignOk (K.secs.getD j 0) (C.witnessDigest sk i (p2pkhScript h160) uo.value 1)
-    (K.nonce j (C.witnessDigest sk i (p2pkhScript h160) uo.value 1)) ∧
-  (Sig.schnorrSign K.tagged (C.taprootDigest sk spent i 0) (beBytes 32 (K.secs.getD j 0))
-    (K.aux j (C.taprootDigest sk spent i 0))).isSome = true
+  (uo.script.length = 25 →
+    SignOk (K.secs.getD j 0) (C.legacyDigest sk i uo.script 1) (K.nonce j (C.legacyDigest sk i uo.script 1))) ∧
+  (uo.script.length = 22 ∨ uo.script.length = 23 →
+    SignOk (K.secs.getD j 0) (C.witnessDigest sk i (p2pkhScript h160) uo.value 1)
+      (K.nonce j (C.witnessDigest sk i (p2pkhScript h160) uo.value 1))) ∧
+  (uo.script.length = 34 →
+    (Sig.schnorrSign K.tagged (C.taprootDigest sk spent i 0) (beBytes 32 (K.secs.getD j 0))
+      (K.aux j (C.taprootDigest sk spent i 0))).isSome = true)
 
 theorem signatures_verify_real (H : Addr.Hashes) (O : Oracles) (C : Crypto) (K : C03Signer) (f : Flags) (q : Quirks)
     (c : Cfg) (ms : MsFn) (t : Tx) (spent : List TxOut) (i : Nat) (inp : TxIn) (uo : TxOut)
@@ -74,20 +80,20 @@ theorem signatures_verify_real (H : Addr.Hashes) (O : Oracles) (C : Crypto) (K :
     | none => exact absurd hq (Proofs.C03.mul_G_ne_none d (hkeys d hd).1 (hkeys d hd).2)
     | some q => obtain ⟨x, y⟩ := q; simp [Secp.ser33, beBytes]
   have hsigner : SignerOk O (keyTable H c.bech32 K.pubs) (sigOf C K.signer spent (skeleton t)) i uo := by
-    refine ⟨fun j krj hj => ?_, fun j krj hj => ?_, fun j krj hj => ?_⟩
+    refine ⟨fun j krj hj hlen => ?_, fun j krj hj hlen => ?_, fun j krj hj hlen => ?_⟩
     · obtain ⟨d, hd, hd0, hdn, hpub⟩ := keyOf j krj hj
-      obtain ⟨ok1, _, _⟩ := hcalls j krj hj
+      have ok1 := (hcalls j krj hj).1 hlen
       refine ⟨?_, no_clash j krj hj⟩
       simp only [sigOf, C03Signer.signer, hpub]
       rw [hd] at ok1 ⊢
       exact goodSig_of_sign O .base _ d _ _ hd0 hdn ok1 (by simp [dig_legacy]) hO_ecdsa
     · obtain ⟨d, hd, hd0, hdn, hpub⟩ := keyOf j krj hj
-      obtain ⟨_, ok2, _⟩ := hcalls j krj hj
+      have ok2 := (hcalls j krj hj).2.1 hlen
       simp only [sigOf, C03Signer.signer, hpub]
       rw [hd] at ok2 ⊢
       exact goodSig_of_sign O .witnessV0 _ d _ _ hd0 hdn ok2 (by simp [dig_wit]) hO_ecdsa
     · obtain ⟨d, hd, hd0, hdn, hpub⟩ := keyOf j krj hj
-      obtain ⟨_, _, ok3⟩ := hcalls j krj hj
+      have ok3 := (hcalls j krj hj).2.2 hlen
       simp only [sigOf, C03Signer.signer, hpub]
       rw [hd] at ok3 ⊢
       obtain ⟨h64, hv⟩ := schnorr_good K.tagged d _ _ hdn ok3
